@@ -1,16 +1,21 @@
 #!/usr/bin/env python3
-"""usage: run_seeded.py [id-prefix ...]
+"""usage: run_seeded.py [--own] [id-prefix ...]
+--own: run only the check of the property each change was written against (the other recorded
+results are kept as they are).
 Re-runs, for every kept seeded change (or those whose id starts with a given prefix), the quick checks
 recorded in its meta.json against it (tools/try_mutant.sh) and rewrites the results in meta.json."""
 import json, glob, os, re, subprocess, sys
 root = os.path.dirname(os.path.dirname(os.path.abspath(__file__)))
-sel = sys.argv[1:]
+own_only = '--own' in sys.argv
+sel = [a for a in sys.argv[1:] if a != '--own']
 bad = 0
 for f in sorted(glob.glob(os.path.join(root, "seeded", "*", "meta.json")) + glob.glob(os.path.join(root, "regress", "*", "meta.json")) + glob.glob(os.path.join(root, "probes", "*", "meta.json"))):
     m = json.load(open(f))
     if sel and not any(m["id"].startswith(s) for s in sel):
         continue
     checks = sorted(set(m["checks_run_against_it"]["results"].keys()) | {m["breaks_property"]})
+    if own_only:
+        checks = [m["breaks_property"]]
     t = subprocess.run([os.path.join(root, "tools/try_mutant.sh"), os.path.join(os.path.dirname(f), "patch.diff")] + checks, capture_output=True, text=True)
     results, cur = {}, None
     for l in t.stdout.splitlines():
@@ -20,6 +25,10 @@ for f in sorted(glob.glob(os.path.join(root, "seeded", "*", "meta.json")) + glob
             results[cur] = {"exit": int(mm.group(2))}
         elif cur and l.strip().startswith("class="):
             results[cur]["violation"] = l.strip()[:300]
+    if own_only:
+        merged = dict(m["checks_run_against_it"]["results"])
+        merged.update(results)
+        results = merged
     m["checks_run_against_it"]["results"] = results
     m["caught_by"] = sorted(k for k, v in results.items() if v["exit"] == 1)
     m["missed_by"] = sorted(k for k, v in results.items() if v["exit"] == 0)
